@@ -260,6 +260,13 @@ func checkSpec(o *observation) ([]finding, *analysis) {
 			}
 		}
 	}
+	if len(o.Spec.Servers) > 0 && len(o.Addrs) == len(o.Spec.Servers) {
+		// the server list: a collector of the list that is listening must be reached, whatever stands before it
+		li := liveIndex(o.Spec.Servers)
+		if v := compareList(o.Spec.Servers, connectGroups(o.Log, o.Addrs), li, li); v.Property != "" {
+			add("recovers:"+mode+":live-server-of-list-not-reached", "%s (client Timeout %d ms)", v.Property, o.Spec.TimeoutMs)
+		}
+	}
 	if !o.Recovered {
 		add("recovers:"+mode+":no-delivery-after-faults", "after the fault script ended, none of %d further packs (handed over more than 20 s) was received (%d connections accepted)", o.Attempts, len(o.Conns))
 	}
